@@ -558,7 +558,7 @@ func runTransfer(t *testing.T, sc Scenario, sum *summary, tf *vh.TraceFile) {
 		w.Ev(map[string]any{"ev": "teardown", "leaks": leaks, "backlog_leaks": backlogLeaks, "unclaimed": unclaimed, "pool_gets": gets, "pool_puts": puts, "pool_outstanding": outstanding,
 			"pool_anomalies": anomalies})
 		tf.WriteTrace(map[string]any{"cfg": sc.Cfg, "label": sc.Label, "seed": sc.Seed, "loss": sc.LossPct, "dup": sc.DupPct, "delay": sc.MaxDelay,
-			"closemid": sc.CloseMid, "peerfec": sc.PeerFEC, "faulty": sc.Corrupt > 0 || sc.Garbage > 0, "clean": sc.Clean}, w.Tr)
+			"closemid": sc.CloseMid, "peerfec": sc.PeerFEC, "faulty": sc.Corrupt > 0 || sc.Garbage > 0, "clean": sc.Clean, "paced": sc.RateLimit > 0}, w.Tr)
 		sum.Runs++
 		sum.Events += w.Tr.Len()
 		if sc.LossPct > 0 || sc.DupPct > 0 || sc.MaxDelay > 0 || sc.Outage > 0 || sc.PauseMs > 0 || sc.Corrupt > 0 || sc.Garbage > 0 || sc.CloseMid {
@@ -681,6 +681,9 @@ func scenarioBatch(t *testing.T, name string, tweak func(r int, rng *rand.Rand, 
 			LossPct: []int{0, 5, 20}[rng.Intn(3)], DupPct: []int{0, 5}[rng.Intn(2)], MaxDelay: []int{0, 10, 60}[rng.Intn(3)],
 			Bytes: 20000 + rng.Intn(60000)}
 		tweak(r, rng, &sc)
+		if only := vh.EnvInt("SESS_ONLY", -1); only >= 0 && r != only {
+			continue // (debugging aid: one scenario of the batch, generated exactly as in the full batch)
+		}
 		runTransfer(t, sc, sum, tf)
 	}
 	vh.Must(tf.Close())
